@@ -11,6 +11,12 @@ ENGINES = [
 NOT_YET = {}
 TB = "Trusted: Lean kernel; axioms ⊆ {propext, Quot.sound, Classical.choice}; the translator; the harness + canonicalisation; "
 META = {
+    "C01": {
+        "text": "Theorem storage_layout, by induction on typenum's binary digits: for every element layout (0 < align, align | size) and every length N, the recursive storage and the transparent wrapper have size N*size_of::<T>() and T's alignment (N = 0 and zero-sized T included); proved for the whole class of repr(C) nodes with two children, 0/1 elements and align-1 ZST fields in any order, into which the struct descriptors regenerated from src/lib.rs are shown to fall by `decide`. Slice-view element offsets are proved inside the object and pairwise disjoint. Correspondence: size_of/align_of/element address of the real type for 19 element layouts x lattice (thorough: every N <= 1025 and every named large length).",
+        "design_ref": "§5 C01",
+        "note": TB + "modelled not verified: rustc's layout algorithm for repr(C)/repr(transparent)/[T;0]/PhantomData (Reference rules are the model, validated on the grid).",
+        "technique": "Lean 4 induction over binary digits on regenerated struct descriptors + size_of/align_of differential grid",
+    },
     "C06": {
         "text": "Refinement theorem run_refines: for every finite sequence of the fourteen iterator operations, from every state satisfying front ≤ back ≤ N, outputs equal those of a list deque (induction on the operation list, unbounded N). The index arithmetic and conditions the theorem is about are regenerated from src/iter.rs on every run and re-proved equal to their canonical reading; the compiled model is diffed against the real iterator exhaustively for N ≤ 8 and on seeded sequences over the lattice, with VecDeque as an independent oracle.",
         "design_ref": "§5 C06",
